@@ -333,7 +333,7 @@ pub fn run(ctx: &Ctx) -> Outcome {
             for (ivn, iv) in iv_variants(seed, iv_len) {
                 for (dn, data) in data_variants(seed, 0xC09E, nmax * de.mbs) {
                     rep.case(|| {
-                        let pieces: Vec<P> = (0..nmax).map(|_| P { len: de.mbs, kind: Kind::InPlace, single: true }).collect();
+                        let pieces: Vec<P> = (0..nmax).map(|_| P { len: de.mbs, kind: Kind::InPlace, single: true, closure: 0 }).collect();
                         let e = (fe_e.run)(key, &iv, &data, &pieces, &data)?;
                         let d = (fe_d.run)(key, &iv, &e.out, &pieces, &data)?;
                         ensure!(d.out == data, format!("roundtrip/{}", fam), "{}: decryptor does not invert encryptor", de.ty);
